@@ -44,11 +44,14 @@ def plan(exe, tier):
         rnd("O", 3, 30, 10000)
         rnd("Q", 1, 12, 5000)
     else:
-        exh("Q", 2, 5, limit=12000000)
-        exh("O", 2, 6, limit=20000000)
-        rnd("Q", 4, 40, 1000000)
-        rnd("O", 3, 30, 300000)
-        rnd("Q", 3, 100, 50000)
+        exh("Q", 2, 4)
+        exh("Q", 1, 6, limit=6000000)
+        exh("O", 2, 5)
+        rnd("Q", 2, 6, 3000000)
+        rnd("O", 2, 7, 2000000)
+        rnd("Q", 4, 40, 300000)
+        rnd("O", 3, 30, 200000)
+        rnd("Q", 3, 100, 30000)
     return jobs
 
 
